@@ -263,4 +263,24 @@ theorem stats_days_ago (today c : Civil) (h1 : Date.toDays today - Date.toDays c
 
 example : daysAgo (Date.instant ⟨2021, 5, 6⟩) (some ⟨2020, 3, 1⟩) = 431 := by decide +kernel
 
+/-- **the CSV form of the single-element register carries the figures of the text form**: for every day both forms are
+    empty together, and otherwise both are built from the same three amounts (positive part, minus the negative part, and their
+    signed sum), printed with two decimals — the text form only pads them to ten columns -/
+theorem single_csv_same_figures (cfg : RCfg) (d : LogDay) (db : Book) :
+    (renderSingle { cfg with csv := true } d db = [] ∧ renderSingle { cfg with csv := false } d db = [])
+    ∨ ∃ p n : Q,
+        renderSingle { cfg with csv := true } d db
+          = Date.format cfg.dateLayout d.date ++ [59, 34] ++ cfg.singleElement ++ [34, 59] ++ Num.fmtFixed 2 p ++ [59] ++ Num.fmtFixed 2 (-n)
+            ++ [59] ++ Num.fmtFixed 2 (p + n) ++ [10]
+        ∧ renderSingle { cfg with csv := false } d db
+          = Date.format cfg.dateLayout d.date ++ [32] ++ Bytes.padLeft 32 20 cfg.singleElement ++ [32] ++ Bytes.padLeft 32 10 (Num.fmtFixed 2 p) ++ [32]
+            ++ Bytes.padLeft 32 10 (Num.fmtFixed 2 (-n)) ++ [32, 61] ++ Bytes.padLeft 32 10 (Num.fmtFixed 2 (p + n)) ++ [10] := by
+  unfold renderSingle
+  simp only []
+  cases h : accumulate [] (singleContribs db cfg.singleElement d) with
+  | nil => left; exact ⟨rfl, rfl⟩
+  | cons a rest =>
+    right
+    exact ⟨a.pos, a.neg, rfl, rfl⟩
+
 end Hrano.C07
